@@ -5,6 +5,7 @@ package main
 // connection alone (`connections_independent`), whatever the others do at the same time.
 
 import (
+	"strings"
 	"context"
 	"fmt"
 	"io"
@@ -20,7 +21,19 @@ func init() {
 			reg := g.registry()
 			n := []int{2, 2, 4, 8}[g.Intn(4)]
 			dl := newDispatchLog()
-			svc, err := reg.build(dl)
+			// variant "held": the first call on connection 0 goes to method Wait, whose handler is held until
+			// every other connection has been answered completely — a handler still running on one
+			// connection must not keep the others from being served
+			held := len(reg.ifaces) > 0 && g.Chance(1, 3)
+			// variant "slow": connection 0 asks for a multi-megabyte reply and starts reading late, while
+			// connection 1 asks for a large reply of its own
+			slowReader := false
+			release := make(chan struct{})
+			svc, err := reg.buildHooked(dl, func(method string) {
+				if held && method == "Wait" {
+					<-release
+				}
+			})
 			if err != nil {
 				return err
 			}
@@ -45,7 +58,25 @@ func init() {
 					cases[k].segs = g.cut(cases[k].stream)
 				}
 			}
-			var wg sync.WaitGroup
+			if held {
+				first := `{"method":"` + reg.ifaces[0].name + `.Wait","parameters":{"id":"held","acts":[["r",{"held":true}]]}}` + "\x00"
+				cases[0].stream = append([]byte(first), cases[0].stream...)
+				cases[0].segs = g.cut(cases[0].stream)
+			}
+			if slowReader {
+				mk := func(n int) []byte {
+					return []byte(`{"method":"` + reg.ifaces[0].name + `.Big","parameters":{"id":"big","acts":[["r",{"pad":"` + strings.Repeat("z", n) + `"}]]}}` + "\x00")
+				}
+				cases[0].stream = mk(2<<20 + g.Intn(1<<20))
+				cases[0].segs = [][]byte{cases[0].stream}
+				cases[1].stream = mk(512<<10 + g.Intn(512<<10))
+				cases[1].segs = [][]byte{cases[1].stream}
+			}
+			var wg, others sync.WaitGroup
+			others.Add(n)
+			if held {
+				others.Done() // connection 0 is not waited for
+			}
 			start := make(chan struct{})
 			for k := range cases {
 				wg.Add(1)
@@ -57,6 +88,9 @@ func init() {
 					}
 					defer conn.Close()
 					<-start
+					if slowReader && k == 1 {
+						time.Sleep(60 * time.Millisecond) // connection 0's big reply is being written (and is parked) by now
+					}
 					// the writer must not block on a service that is itself blocked writing replies
 					go func() {
 						for _, seg := range cases[k].segs {
@@ -69,11 +103,24 @@ func init() {
 						}
 						conn.(*net.UnixConn).CloseWrite()
 					}()
+					if slowReader && k == 0 {
+						time.Sleep(150 * time.Millisecond) // the service's write of the big reply parks meanwhile
+					}
 					conn.SetReadDeadline(time.Now().Add(20 * time.Second))
+					if held && k != 0 {
+						conn.SetReadDeadline(time.Now().Add(5 * time.Second))
+					}
 					replies[k], _ = io.ReadAll(conn)
+					if !(held && k == 0) {
+						others.Done()
+					}
 				}(k)
 			}
 			close(start)
+			if held {
+				// release connection 0's handler only after all other connections are through
+				go func() { others.Wait(); close(release) }()
+			}
 			wg.Wait()
 			svc.Shutdown()
 			select {
@@ -85,6 +132,7 @@ func init() {
 				l.S("connr")
 				reg.line(l)
 				l.B(cases[k].stream).S("|").B(replies[k]).N(n)
+				_ = held
 				fmt.Fprintln(e.out, l.String())
 			}
 			return nil
